@@ -492,6 +492,33 @@ def scrape_consts():
     return facts, problems
 
 
+def scrape_include():
+    """IncludeFacts.v: does visit_include skip a file that has been walked before? (C12)"""
+    src = re.sub(r"//.*", "", read("idlc_ast_passes/src/idl_store.rs"))
+    facts, problems = {}, []
+    m = re.search(r"fn visit_include\(&mut self.*?\n    \}\n", src, re.S)
+    if not m:
+        problems.append("idl_store.rs: cannot locate visit_include")
+        return facts, problems
+    body = m.group(0)
+    guarded = re.search(r"if self\.walked\.insert\(cano_path(?:\.clone\(\))?\)\s*\{\s*walk_all\(self, &inc_ast\);\s*\}", body)
+    bare = re.search(r"\n\s*walk_all\(self, &inc_ast\);", body) and not guarded
+    if not guarded and not bare:
+        problems.append("idl_store.rs: visit_include has an unrecognised walk structure")
+    # the cycle test must still precede the walk and the edge must be added for every include
+    order_ok = 0 <= body.find("self.graph.add_edge(") < body.find("self.cycle = self.graph.cycle()") < body.find("walk_all(self, &inc_ast)")
+    if not order_ok:
+        problems.append("idl_store.rs: visit_include no longer adds the edge and tests for a cycle before walking")
+    facts["walk_skips_walked"] = bool(guarded) and "walked: HashSet::new()" in src
+    return facts, problems
+
+
+def render_include(facts):
+    return ("(* GENERATED by lib/translate.py from idlc_ast_passes/src/idl_store.rs (visit_include). *)\n"
+            "Require Import Base.\n\n(* a file that has been walked before is not walked again *)\n"
+            "Definition walk_skips_walked : bool := %s.\n" % ("true" if facts.get("walk_skips_walked") else "false"))
+
+
 def render_consts(facts):
     return ("(* GENERATED by lib/translate.py: the text Primitive::new parses for floating-point constants. *)\nRequire Import Base.\n\n"
             "Definition float_parsed_as_written : bool := %s.\n" % ("true" if facts["float_parsed_as_written"] else "false"))
@@ -580,6 +607,11 @@ def main(outdir, probe=None):
     F.items["consts"] = nf
     if not nproblems:
         write_if_changed(os.path.join(outdir, "ConstFacts.v"), render_consts(nf))
+    incf, iproblems = scrape_include()
+    F.problems += iproblems
+    F.items["include"] = incf
+    if not iproblems:
+        write_if_changed(os.path.join(outdir, "IncludeFacts.v"), render_include(incf))
     cf, cproblems = scrape_conc()
     F.problems += cproblems
     F.items["conc"] = cf
